@@ -106,6 +106,39 @@ def cli_discovery(R):
         if got != want:
             R.violations.append({"what": "targets %s: scanned files %s, expected %s (explicit files are scanned whatever their name)" % (argv, sorted(got), sorted(want)),
                                  "input": {"argv": argv}, "observed": sorted(j["metrics"]), "signature": None})
+    # -x plumbing: what -x says on the command line is what applies, also when it says "nothing" (the only way to switch
+    # the default excludes off) and also next to an exclude setting in a .bandit file
+    shutil.rmtree(d, ignore_errors=True)
+    for sub in ("pkg", ".tox/env", "tests", "build"):
+        os.makedirs(os.path.join(d, "src", sub))
+        open(os.path.join(d, "src", sub, "m.py"), "w").write("assert a\n")
+    open(os.path.join(d, "src", "top.py"), "w").write("assert a\n")
+    # the target is spelled "src" and directory excludes are spelled from the working directory ("src/pkg"), the one spelling
+    # under which directory excludes work (the known finding exclude-depends-on-spelling is about the others)
+    every = {"src/top.py", "src/pkg/m.py", "src/.tox/env/m.py", "src/tests/m.py", "src/build/m.py"}
+    cases = [([], None, every - {"src/.tox/env/m.py"}), (["-x", ""], None, every), (["--exclude="], None, every), (["-x", "src/pkg"], None, every - {"src/pkg/m.py"}),
+             ([], "exclude = src/tests", every - {"src/tests/m.py"}), (["-x", ""], "exclude = src/tests", every), (["--exclude="], "exclude = src/tests,src/build", every),
+             (["-x", "src/build"], "exclude = src/tests", every - {"src/build/m.py"}),
+             (["-x", ".tox,src/tests"], "exclude = src/pkg", every - {"src/.tox/env/m.py", "src/tests/m.py"})]
+    for argv, ini, want in cases:
+        inif = os.path.join(d, ".bandit")
+        if os.path.exists(inif):
+            os.remove(inif)
+        if ini:
+            open(inif, "w").write("[bandit]\n" + ini + "\n")
+        r = climain.run_main(["-q", "-f", "json", "--exit-zero", "-r", "src"] + (["--ini", ".bandit"] if ini else []) + argv, cwd=d)
+        R.case(("cli-exclude", tuple(argv), ini), nontrivial=True, sample={"argv": argv, "ini": ini, "exit": r["exit"]})
+        R.count("cli-exclude")
+        inp = {"argv": ["-r", "src"] + argv, "ini_file": ini, "tree": sorted(every)}
+        if r["exception"] or r["exit"] != 0:
+            R.violations.append({"what": "no report for %s with .bandit %r (%s)" % (argv, ini, r["exception"] or r["exit"]), "input": inp,
+                                 "observed": (r["traceback"] or r["stderr"] or "")[-300:], "signature": None})
+            continue
+        j = json.loads(r["stdout"][r["stdout"].index("{"):])
+        got = {os.path.normpath(k) for k in j["metrics"] if k != "_totals"}
+        if got != want:
+            R.violations.append({"what": "options %s with .bandit %r: scanned %s, the command line%s says %s" % (
+                argv, ini, sorted(got), "" if argv else " (nothing given: the file's / default excludes)", sorted(want)), "input": inp, "observed": sorted(got), "signature": None})
     shutil.rmtree(d, ignore_errors=True)
 
 
